@@ -19,6 +19,7 @@ def parse_arr(s):
     return np.array(common.parse_floats(d), dtype=np.float64).reshape(shape)
 
 
+ENTRIES = False          # every op also through its other public entry points: Tensor method, operator, nn layer class
 SPELLINGS = False        # set together with LAYOUTS: integer arguments also arrive as NumPy integers, tuples also as lists
 SPELL_OPS = ('concat', 'stack', 'unbind', 'sum', 'mean', 'squeeze', 'unsqueeze', 'reshape', 'movedim', 'transpose', 'flatten')
 LAYOUTS = False          # set by the property modules whose input space includes the memory layout of leaf arrays
@@ -93,6 +94,8 @@ def opt_int(s):
 class Impl:
     def __init__(self):
         self.sg = common.impl()
+        from synapgrad import nn as _nn
+        self.nn = _nn
         self.tm = tmod()
         self.ts = []
         self.ctxs = []
@@ -121,6 +124,16 @@ class Impl:
     def _call_op(self, name, ins, args, sp):
         sg = self.sg
         x = [self.ts[i] for i in ins]
+        ev = (sum(map(ord, name + ' '.join(map(str, args)))) + 7 * len(ins)) % 3 if ENTRIES else 0      # 0: function, 1/2: method / operator
+        if ev:
+            if name == 'add': return x[0] + x[1]
+            if name == 'mul': return x[0] * x[1]
+            if name == 'matmul': return x[0] @ x[1]
+            if name == 'neg': return -x[0]
+            if name == 'pow': return x[0] ** bitsf(args[0])
+            if name == 'rpow': return bitsf(args[0]) ** x[0]
+            if name in ('exp', 'log', 'sqrt', 'clone'): return getattr(x[0], name)()
+            if name == 'slice': return x[0][self._index(parse_sel(args[0]))]
         def I(v):
             if v is None or sp == 0: return v
             if isinstance(v, (tuple, list)):
@@ -141,17 +154,20 @@ class Impl:
                 seq.reverse(); seq.pop()
             return r
         if name == 'unbind': return sg.unbind(x[0], int_(args[0]))
-        if name in ('sum', 'mean'): return getattr(sg, name)(x[0], I(parse_axes(args[0])), bool(int(args[1])))
-        if name in ('max', 'min'): return getattr(sg, name)(x[0], opt_int(args[0]), bool(int(args[1])))
-        if name == 'squeeze': return sg.squeeze(x[0], I(parse_axes(args[0])))
+        if name in ('sum', 'mean'): return (getattr(x[0], name) if ev else lambda *a: getattr(sg, name)(x[0], *a))(I(parse_axes(args[0])), bool(int(args[1])))
+        if name in ('max', 'min'): return (getattr(x[0], name) if ev else lambda *a: getattr(sg, name)(x[0], *a))(opt_int(args[0]), bool(int(args[1])))
+        if name == 'squeeze': return x[0].squeeze(I(parse_axes(args[0]))) if ev else sg.squeeze(x[0], I(parse_axes(args[0])))
         if name == 'unsqueeze':
             ax = common.parse_ints(args[0])
-            return sg.unsqueeze(x[0], I(ax[0] if len(ax) == 1 else tuple(ax)))
-        if name == 'reshape': return sg.reshape(x[0], I(tuple(common.parse_ints(args[0]))))
-        if name == 'movedim': return sg.movedim(x[0], int_(args[0]), int_(args[1]))
-        if name == 'transpose': return sg.transpose(x[0], int_(args[0]), int_(args[1]))
-        if name == 'flatten': return sg.flatten(x[0], int_(args[0]), int_(args[1]))
-        if name == 'unfold_dim': return sg.unfold_dim(x[0], int(args[0]), int(args[1]), int(args[2]))
+            return x[0].unsqueeze(I(ax[0] if len(ax) == 1 else tuple(ax))) if ev else sg.unsqueeze(x[0], I(ax[0] if len(ax) == 1 else tuple(ax)))
+        if name == 'reshape': return x[0].reshape(I(tuple(common.parse_ints(args[0])))) if ev else sg.reshape(x[0], I(tuple(common.parse_ints(args[0]))))
+        if name == 'movedim': return (x[0].movedim if ev == 1 else x[0].moveaxis if ev == 2 else lambda *a: sg.movedim(x[0], *a))(int_(args[0]), int_(args[1]))
+        if name == 'transpose': return x[0].transpose(int_(args[0]), int_(args[1])) if ev else sg.transpose(x[0], int_(args[0]), int_(args[1]))
+        if name == 'flatten':
+            if ev == 1: return x[0].flatten(int_(args[0]), int_(args[1]))
+            if ev == 2: return self.nn.Flatten(int_(args[0]), int_(args[1]))(x[0])
+            return sg.flatten(x[0], int_(args[0]), int_(args[1]))
+        if name == 'unfold_dim': return x[0].unfold(int(args[0]), int(args[1]), int(args[2])) if ev else sg.unfold_dim(x[0], int(args[0]), int(args[1]), int(args[2]))
         return self.call_nn(name, x, args)
 
     def call_nn(self, name, x, args):
@@ -174,6 +190,31 @@ class Impl:
             if sp == 2: return list(v)
             if sp == 3: return tuple(np.int64(q) for q in v)
             return v
+        nn = self.nn
+        lay = ENTRIES and (sum(map(ord, name + ' '.join(map(str, args)))) + len(x)) % 2 == 1        # the layer class instead of the function
+        if lay:
+            if name in ('relu', 'selu', 'tanh', 'sigmoid'):
+                return {'relu': nn.ReLU, 'selu': nn.SELU, 'tanh': nn.Tanh, 'sigmoid': nn.Sigmoid}[name]()(x[0])
+            if name == 'leaky_relu': return nn.LeakyReLU(bitsf(args[0]))(x[0])
+            if name in ('softmax', 'log_softmax'): return (nn.Softmax if name == 'softmax' else nn.LogSoftmax)(int(args[0]))(x[0])
+            if name in ('max_pool1d', 'avg_pool1d'):
+                return (nn.MaxPool1d if name[0] == 'm' else nn.AvgPool1d)(int(args[0]), int(args[1]), int(args[2]), int(args[3]))(x[0])
+            if name in ('max_pool2d', 'avg_pool2d'):
+                return (nn.MaxPool2d if name[0] == 'm' else nn.AvgPool2d)(pair(args[0]), pair(args[1]), pair(args[2]), pair(args[3]))(x[0])
+            if name == 'unfold': return nn.Unfold(pair(args[0]), stride=pair(args[2]), padding=pair(args[3]), dilation=pair(args[1]), pad_value=bitsf(args[4]))(x[0])
+            if name == 'fold': return nn.Fold(tuple(common.parse_ints(args[0])), pair(args[1]), stride=pair(args[3]), padding=pair(args[4]), dilation=pair(args[2]))(x[0])
+            if name in ('linear', 'conv1d', 'conv2d'):
+                # a layer object whose parameters ARE the program's operand tensors (so their gradients are observed as usual)
+                w = x[1]; b = x[2] if len(x) > 2 else None
+                if name == 'linear':
+                    m = nn.Linear(w.shape[1], w.shape[0], bias=b is not None)
+                elif name == 'conv1d':
+                    m = nn.Conv1d(w.shape[1], w.shape[0], w.shape[2], int(args[1]), int(args[2]), int(args[3]), bias=b is not None)
+                else:
+                    m = nn.Conv2d(w.shape[1], w.shape[0], (w.shape[2], w.shape[3]), pair(args[1]), pair(args[2]), pair(args[3]), bias=b is not None)
+                object.__setattr__(m, 'weight', w)
+                object.__setattr__(m, 'bias', b)
+                return m(x[0])
         if name in ('relu', 'selu', 'tanh', 'sigmoid'): return getattr(sg, name)(x[0])
         if name == 'leaky_relu': return sg.leaky_relu(x[0], bitsf(args[0]))
         if name in ('softmax', 'log_softmax'): return getattr(sg, name)(x[0], int(args[0]))
